@@ -25,6 +25,7 @@ package main
 
 import (
 	"context"
+	"errors"
 	"fmt"
 	"math/rand"
 	"os"
@@ -57,7 +58,8 @@ const (
 	sigReleased   = "live-lock-released-or-taken-over"
 	sigNoRecover  = "dead-lock-not-recovered"
 	sigHbSlow     = "heartbeat-not-refreshed-every-period"
-	sigHbShape    = "heartbeat-operations-unexpected"
+	sigHbTime     = "sign-of-life-timestamp-not-current"
+	sigUnreadable = "stale-on-unreadable-sign-of-life"
 	sigOpOutcome  = "operation-outcome-unexpected"
 )
 
@@ -245,6 +247,8 @@ type actor struct {
 	sh   *shim.Fs
 	fs   *filesystem.VFS
 	lock filesystem.ILock
+
+	cancels []context.CancelFunc
 }
 
 func (w *world) actor(override bool) *actor {
@@ -286,17 +290,29 @@ func errKind(err error) string {
 	}
 }
 
-func (a *actor) do(op string) call {
+func (a *actor) do(op string) (c call) {
 	ctx := context.Background()
 	i0 := a.rec.n()
-	c := call{Op: op, B: now()}
+	c = call{Op: op, B: now()}
+	defer func() {
+		if p := recover(); p != nil {
+			c.Err = fmt.Sprintf("other:panic: %v", p)
+			c.E = now()
+			c.Ops = a.rec.slice(i0, 1<<30)
+			fail(sigOpOutcome, fmt.Sprintf("%s panicked: %v", op, p), scenario{Kind: "panic", Op: op})
+		}
+	}()
 	switch op {
 	case "IsStale":
 		c.Stale = a.lock.IsStale()
 	case "Release":
 		c.Err = errKind(a.lock.ReleaseIfStale(ctx))
 	case "TryLock", "TryLockOverride":
-		c.Err = errKind(a.lock.TryLock(ctx))
+		// a deadline bounds the library's recursion in TryLock (override) should a stale lock never get released;
+		// observers that acquire give the lock back at once, so the deadline never cuts a heartbeat short
+		tctx, cancel := context.WithTimeout(ctx, time.Second)
+		a.cancels = append(a.cancels, cancel)
+		c.Err = errKind(a.lock.TryLock(tctx))
 	}
 	c.E = now()
 	c.Ops = a.rec.slice(i0, 1<<30)
@@ -505,67 +521,65 @@ func parseNow(data string) int64 {
 	return t.UnixNano()
 }
 
-// holderEvents projects the holder's recorded operations on the model's events; shapeOK is false when the sequence
-// is not  Mkdir, Chtimes(dir), (OpenFile, Write, [Close], Chtimes(hb))*  (errors after a removal of the lock end it).
+// holderEvents projects the holder's recorded operations on the model's events (every recognised operation, up to
+// the first removal of the lock); shapeOK is false when their order is not the holder machine's
+// Mkdir, Chtimes(dir), (OpenFile(O_CREATE|O_TRUNC), Write, [Close], Chtimes(hb))*.
 func holderEvents(w *world, ops []recOp) (evs []hEv, shapeOK bool, why string) {
 	shapeOK = true
+	bad := func(s string) {
+		if shapeOK {
+			shapeOK, why = false, s
+		}
+	}
 	st := 0 // 0 expect Mkdir, 1 ChtimesDir, 2 Create, 3 Write, 4 ChtimesHb
 	for _, o := range ops {
 		if o.Err {
-			if (o.Name == "Mkdir" && st == 0) || o.Name == "f.Close" || o.Name == "Stat" || o.Name == "Open" {
-				continue // a failed attempt (exists); the library's deferred second Close
+			if (o.Name == "OpenFile" || o.Name == "f.Write" || o.Name == "Chtimes") && st >= 1 && len(evs) > 0 {
+				return evs, shapeOK, why // the lock was removed under the holder (or similar): the hold ends here
 			}
-			if st >= 2 {
-				return evs, shapeOK, "" // lock removed under the holder (or similar): stop here
-			}
-			continue
+			continue // a failed Mkdir attempt, the library's deferred second Close, ...
 		}
 		switch {
 		case o.Name == "Mkdir" && o.Path == w.lockP:
 			if st != 0 {
-				return evs, shapeOK, ""
+				return evs, shapeOK, why // a re-acquisition: only the first hold is projected
 			}
 			evs = append(evs, hEv{Kind: "Mkdir", B: o.B, E: o.E})
 			st = 1
 		case o.Name == "Chtimes" && o.Path == w.lockP:
 			if st != 1 {
-				return evs, false, "Chtimes(dir) out of place"
+				bad("Chtimes(dir) out of place")
 			}
 			evs = append(evs, hEv{Kind: "ChtimesDir", B: o.B, E: o.E, Val: o.T, Now: o.T})
 			st = 2
 		case o.Name == "OpenFile" && o.Path == w.hbP:
 			if st == 1 {
-				return evs, false, "heartbeat file created before Chtimes(dir)"
-			}
-			if st != 2 {
-				return evs, false, "OpenFile out of place"
+				bad("heartbeat file created without a preceding Chtimes(dir)")
+			} else if st != 2 {
+				bad("OpenFile(heartbeat) out of place (previous iteration incomplete)")
 			}
 			if o.Flag&os.O_CREATE == 0 || o.Flag&os.O_TRUNC == 0 {
-				return evs, false, "heartbeat file not opened with O_CREATE|O_TRUNC"
+				bad("heartbeat file not opened with O_CREATE|O_TRUNC")
 			}
 			evs = append(evs, hEv{Kind: "Create", B: o.B, E: o.E})
 			st = 3
 		case o.Name == "f.Write" && o.Path == w.hbP:
 			if st != 3 {
-				return evs, false, "Write out of place"
+				bad("Write out of place")
 			}
 			evs = append(evs, hEv{Kind: "Write", B: o.B, E: o.E, Now: parseNow(o.Data)})
 			st = 4
-		case o.Name == "f.Close" && o.Path == w.hbP:
 		case o.Name == "Chtimes" && o.Path == w.hbP:
 			if st != 4 {
-				return evs, false, "Chtimes(heartbeat) out of place"
+				bad("Chtimes(heartbeat) out of place")
 			}
 			evs = append(evs, hEv{Kind: "ChtimesHb", B: o.B, E: o.E, Val: o.T, Now: o.T})
 			st = 2
-		default:
-			// Stat/Open/Remove... of Unlock etc.: the trace of the hold ends at the first removal
-			if o.Name == "Remove" || o.Name == "RemoveAll" {
-				return evs, shapeOK, ""
-			}
+		case o.Name == "Remove" || o.Name == "RemoveAll":
+			return evs, shapeOK, why // Unlock
 		}
 	}
-	return evs, shapeOK, ""
+	return evs, shapeOK, why
 }
 
 // iteration `now`s: for each heartbeat iteration (Create, Write, ChtimesHb) the captured instant
@@ -593,6 +607,49 @@ func fillNow(evs []hEv) {
 		}
 	}
 }
+
+// checkTimestamps: the modification times the holder writes are "now": captured after the previous operation of
+// the same goroutine ended and before the operation that carries them began (pure ordering within one goroutine,
+// no latency involved; 1 ms of tolerance for clock granularity).
+func checkTimestamps(evs []hEv, sc scenario) {
+	tol := msNs
+	var prevEnd int64
+	var payloadNow int64
+	for i, e := range evs {
+		switch e.Kind {
+		case "Mkdir":
+			prevEnd = e.E
+		case "ChtimesDir":
+			if e.Val < prevEnd-tol || e.Val > e.B+tol {
+				fail(sigHbTime, fmt.Sprintf("Chtimes(lock directory) wrote a modification time %.3f ms away from the instant of the call (%.3f ms after Mkdir returned)", float64(e.Val-e.B)/1e6, float64(e.Val-prevEnd)/1e6), sc)
+				return
+			}
+			prevEnd = e.E
+		case "Create":
+			payloadNow = 0
+		case "Write":
+			payloadNow = parseNow0(e)
+		case "ChtimesHb":
+			var createB int64
+			for j := i - 1; j >= 0 && j >= i-2; j-- {
+				if evs[j].Kind == "Create" {
+					createB = evs[j].B
+				}
+			}
+			if e.Val < prevEnd-tol || (createB != 0 && e.Val > createB+tol) {
+				fail(sigHbTime, fmt.Sprintf("heartbeat iteration wrote a modification time that is not its own `now`: %.3f ms relative to the end of the previous operation, %.3f ms relative to the start of its own file creation", float64(e.Val-prevEnd)/1e6, float64(e.Val-createB)/1e6), sc)
+				return
+			}
+			if payloadNow != 0 && (payloadNow-e.Val > tol || e.Val-payloadNow > tol) {
+				fail(sigHbTime, fmt.Sprintf("heartbeat payload time and modification time differ by %.3f ms", float64(payloadNow-e.Val)/1e6), sc)
+				return
+			}
+			prevEnd = e.E
+		}
+	}
+}
+
+func parseNow0(e hEv) int64 { return e.Now }
 
 func evTerm(w *world, at int64, obj string, val, init int64) string {
 	return h.App("mkEv", h.Z(w.rel(at)), obj, h.Z(w.rel(val)), h.Z(w.rel(init)))
@@ -645,6 +702,21 @@ func traceTerms(w *world, evs []hEv) (early, late string) {
 		}
 	}
 	return h.List(e), h.List(l)
+}
+
+// shapeBroken: the holder's operations are not those of the holder machine.  That is a broken TIE (the model no
+// longer mirrors the code), not a verdict on the property: a deliberately failing correspondence case is emitted
+// and the behavioural oracles decide whether the property still holds.
+var shapeOnce sync.Map
+
+func shapeBroken(why string, sc scenario) {
+	if _, dup := shapeOnce.LoadOrStore(why, true); dup {
+		return
+	}
+	count("holder-operations-not-those-of-the-model")
+	note("holder operations differ from the model's holder machine: " + why)
+	addCase(h.App("CHolder", h.Z(periodNs), "0", "(mkAcq (-1) 0 0)", "[]", h.Nat(0), "[]"),
+		map[string]any{"kind": "holder-shape-broken", "why": why, "scenario": sc})
 }
 
 // holderCase: the recorded operations as a run of the holder machine with the measured latencies (landing = end
@@ -753,17 +825,18 @@ func runD30(report bool) bool {
 	for time.Now().Before(deadline) {
 		evs, _, _ := holderEvents(w, H.rec.all())
 		for _, e := range evs {
-			if e.Kind == "ChtimesHb" {
-				lastNow = e.Val
+			if (e.Kind == "ChtimesHb" || e.Kind == "Write") && e.Now != 0 {
+				lastNow = e.Now
 			}
 		}
 		if lastNow != 0 {
+			time.Sleep(2 * time.Millisecond) // let the iteration finish (Close, Chtimes)
 			break
 		}
 		time.Sleep(time.Millisecond)
 	}
 	if lastNow == 0 {
-		fail(sigHbShape, "no heartbeat written within 3 s of acquiring the lock", scenario{Kind: "d30"})
+		fail(sigHbSlow, "no heartbeat written within 3 s of acquiring the lock", scenario{Kind: "d30"})
 		return false
 	}
 	// stall every backend call of the holder (an I/O stall): the holder stays alive, its context is not cancelled
@@ -788,8 +861,8 @@ func runD30(report bool) bool {
 	// latest completed heartbeat before the call
 	evs, _, _ := holderEvents(w, H.rec.all())
 	for _, e := range evs {
-		if e.Kind == "ChtimesHb" && e.E <= c.B {
-			lastNow = e.Val
+		if (e.Kind == "ChtimesHb" || e.Kind == "Write") && e.Now != 0 && e.E <= c.B {
+			lastNow = e.Now
 		}
 	}
 	gap := c.E - lastNow
@@ -840,6 +913,7 @@ func cadenceCheck(sc scenario) bool {
 		time.Sleep(10*period + period/2)
 		_ = H.lock.Unlock(context.Background())
 		evs, _, _ := holderEvents(w, H.rec.all())
+		checkTimestamps(evs, sc)
 		fillNow(evs)
 		var prev int64
 		n := 0
@@ -889,8 +963,8 @@ func judgeStale(w *world, H *actor, c call, sc scenario) bool {
 	evs, _, _ := holderEvents(w, H.rec.all())
 	var lastNow, lastE int64
 	for _, e := range evs {
-		if (e.Kind == "ChtimesHb" || e.Kind == "ChtimesDir") && e.E <= c.B {
-			lastNow, lastE = e.Val, e.E
+		if (e.Kind == "ChtimesHb" || e.Kind == "ChtimesDir" || e.Kind == "Write") && e.Now != 0 && e.E <= c.B {
+			lastNow, lastE = e.Now, e.E
 		}
 	}
 	if lastNow != 0 && c.E-lastNow <= 2*periodNs-coarseTol {
@@ -1131,7 +1205,81 @@ func runPlanted(sc scenario, emit bool) (definite bool) {
 	return true
 }
 
+// runFault: IsStale on a planted lock that would be stale, with one of its reads failing (injected by the shim
+// hook): an unreadable sign of life must never be taken for a missing one.
+func runFault(kind string, mem bool) {
+	sc := scenario{Kind: "fault", Op: kind, Mem: mem}
+	w := newWorld(root, mem, nextName("fault-"))
+	A := w.actor(false)
+	T := now()
+	old := time.Unix(0, T-int64(500*time.Millisecond))
+	_ = w.base.Mkdir(w.lockP, 0o755)
+	f2 := filepath.Join(w.lockP, "second.lock")
+	if kind != "dirstat" {
+		_ = afero.WriteFile(w.base, w.hbP, []byte("x"), 0o644)
+		_ = afero.WriteFile(w.base, f2, []byte("x"), 0o644)
+		_ = w.base.Chtimes(w.hbP, old, old)
+		_ = w.base.Chtimes(f2, old, old)
+	}
+	_ = w.base.Chtimes(w.lockP, old, old)
+	listings := 0
+	injected := errors.New("harness: injected I/O error")
+	A.sh.SetHook(func(op *shim.Op) error {
+		switch {
+		case op.Name == "f.Readdirnames" && op.Path == w.lockP:
+			listings++
+			if kind == "ls" && listings == 2 {
+				return injected
+			}
+		case op.Name == "Stat" && listings >= 2:
+			if (kind == "dirstat" && op.Path == w.lockP) || (kind == "filestat" && op.Path == f2) {
+				return injected
+			}
+		}
+		return nil
+	})
+	c := A.do("IsStale")
+	eval()
+	count("fault:" + kind)
+	distinct("fault|" + kind + fmt.Sprint(mem))
+	if c.Stale {
+		fail(sigUnreadable, fmt.Sprintf("IsStale=true although a read of the lock's sign of life failed (%s): an unreadable sign of life was taken for a missing one", kind), sc)
+	}
+	o := h.Z(w.rel(T - int64(500*time.Millisecond)))
+	var v string
+	switch kind {
+	case "ls":
+		v = "(mkView None None)"
+	case "dirstat":
+		v = "(mkView (Some []) None)"
+	default:
+		// the listing order decides which entry failed; both orders give the same answer, the model is given the real one
+		names := []string{}
+		for _, x := range c.Ops {
+			if x.Name == "f.Readdirnames" && x.N < 0 {
+				names = x.Names
+			}
+		}
+		ts := []string{}
+		for _, nm := range names {
+			if filepath.Join(w.lockP, nm) == f2 {
+				ts = append(ts, "None")
+			} else {
+				ts = append(ts, "(Some "+o+")")
+			}
+		}
+		v = "(mkView (Some " + h.List(ts) + ") (Some " + o + "))"
+	}
+	addCase(h.App("CView", h.Z(periodNs), v, h.Z(w.rel(c.B)), h.Z(w.rel(c.E)), h.Bool(c.Stale)),
+		map[string]any{"kind": "view-fault", "scenario": sc, "stale": c.Stale})
+}
+
 func plantedSweep() {
+	for _, mem := range []bool{true, false} {
+		for _, k := range []string{"ls", "dirstat", "filestat"} {
+			runFault(k, mem)
+		}
+	}
 	ops := []string{"IsStale", "Release", "TryLock", "TryLockOverride"}
 	msv := func(x float64) int64 { return int64(x * 1e6) }
 	// ages (ms) with a margin to the boundary that survives a slow call, plus the boundary itself (retried)
@@ -1140,7 +1288,7 @@ func plantedSweep() {
 		for _, op := range ops {
 			runPlanted(scenario{Kind: "planted", Mem: mem, Op: op, NoLock: true}, true) // no lock at all
 			for _, a := range ages {
-				runPlanted(scenario{Kind: "planted", Mem: mem, Op: op, DirAge: msv(a)}, true)                                // directory only
+				runPlanted(scenario{Kind: "planted", Mem: mem, Op: op, DirAge: msv(a)}, true)                               // directory only
 				runPlanted(scenario{Kind: "planted", Mem: mem, Op: op, DirAge: msv(5000), FileAges: []int64{msv(a)}}, true) // old directory, heartbeat file
 				runPlanted(scenario{Kind: "planted", Mem: mem, Op: op, DirAge: 0, FileAges: []int64{msv(a)}}, true)         // fresh directory, heartbeat file
 			}
@@ -1353,14 +1501,15 @@ func runDeath(sc scenario, emit bool) {
 	// the holder's recorded operations are those of the machine
 	evs, ok, why := holderEvents(w, H.rec.all())
 	if !ok {
-		fail(sigHbShape, why, sc)
+		shapeBroken(why, sc)
 	}
+	checkTimestamps(evs, sc)
 	fillNow(evs)
 	if emit {
 		if term, _, _, _, ok := holderCase(w, evs); ok {
 			addCase(term, map[string]any{"kind": "holder-dead", "scenario": sc})
 		} else {
-			fail(sigHbShape, "holder operations cannot be expressed as a run of the holder machine", sc)
+			shapeBroken("holder operations cannot be expressed as a run of the holder machine", sc)
 		}
 	}
 	afterDeath(w, H, sc, emit)
@@ -1489,7 +1638,22 @@ func runHold(sc scenario, emit bool, confirmMode bool) (res holdResult) {
 			}
 		}(i)
 	}
+	// latency reference in the same process and window: a goroutine that sleeps period-1ms like the heartbeat does
+	var refIters int32
+	refStop := make(chan struct{})
+	go func() {
+		for {
+			select {
+			case <-refStop:
+				return
+			default:
+			}
+			time.Sleep(period - time.Millisecond)
+			atomic.AddInt32(&refIters, 1)
+		}
+	}()
 	time.Sleep(holdFor)
+	close(refStop)
 	if sc.Death {
 		kill()
 		ended = now()
@@ -1511,15 +1675,16 @@ func runHold(sc scenario, emit bool, confirmMode bool) (res holdResult) {
 	hops := H.rec.all()
 	evs, shapeOK, why := holderEvents(w, hops)
 	if !shapeOK {
-		fail(sigHbShape, why, sc)
+		shapeBroken(why, sc)
 	}
+	checkTimestamps(evs, sc)
 	fillNow(evs)
 	// completed heartbeats (instant of completion, value)
 	type hb struct{ E, Now int64 }
 	var hbs []hb
 	for _, e := range evs {
-		if e.Kind == "ChtimesHb" || e.Kind == "ChtimesDir" {
-			hbs = append(hbs, hb{e.E, e.Val})
+		if (e.Kind == "ChtimesHb" || e.Kind == "ChtimesDir" || e.Kind == "Write") && e.Now != 0 {
+			hbs = append(hbs, hb{e.E, e.Now})
 		}
 	}
 	lastBefore := func(t int64) (hb, bool) {
@@ -1581,12 +1746,12 @@ func runHold(sc scenario, emit bool, confirmMode bool) (res holdResult) {
 			if emit && !confirmMode && c.Op == "IsStale" && vok {
 				interesting := c.Stale || (v.Seen && c.E-v.Min > 90*msNs)
 				if interesting || rng.Intn(12) == 0 {
-					if nView < 160 {
+					if nView < 80 {
 						nView++
 						addCase(h.App("CView", h.Z(periodNs), w.viewTerm(v), h.Z(w.rel(v.Lo)), h.Z(w.rel(c.E)), h.Bool(c.Stale)),
 							map[string]any{"kind": "view-hold", "scenario": sc, "stale": c.Stale})
 					}
-					if live && nTrace < 60 && len(evs) > 0 && c.B > evs[0].E {
+					if live && nTrace < 35 && len(evs) > 0 && c.B > evs[0].E {
 						ce, cl := traceTerms(w, relevant(evs, c.B, c.E))
 						nTrace++
 						addCase(h.App("CTrace", h.Z(periodNs), ce, cl, h.Z(w.rel(c.B)), h.Z(w.rel(v.Lo)), h.Z(w.rel(c.B)), h.Z(w.rel(c.E)), h.Z(w.rel(v.Lo)), h.Z(w.rel(c.E)), h.Bool(c.Stale)),
@@ -1619,16 +1784,16 @@ func runHold(sc scenario, emit bool, confirmMode bool) (res holdResult) {
 		}
 		want := sc.Periods - 2
 		_ = minStep
-		if iters < want/3 && sc.Periods >= 6 {
+		if iters < want/3 && sc.Periods >= 6 && 2*iters < int(atomic.LoadInt32(&refIters)) {
 			res.candidates = append(res.candidates, sigHbSlow)
-			res.whats = append(res.whats, fmt.Sprintf("only %d heartbeat iterations in a hold of %d periods", iters, sc.Periods))
+			res.whats = append(res.whats, fmt.Sprintf("only %d heartbeat iterations in a hold of %d periods, while a reference goroutine sleeping period-1ms in the same process completed %d", iters, sc.Periods, atomic.LoadInt32(&refIters)))
 		}
 		mu.Lock()
 		r.CountN("hold:heartbeat-iterations", iters)
 		mu.Unlock()
 		noteMax(maxGap, 0)
 	} else if !ok && firstRemoval == int64(1<<62) && atomic.LoadInt32(&disturbed) == 0 {
-		fail(sigHbShape, "holder operations cannot be expressed as a run of the holder machine", sc)
+		shapeBroken("holder operations cannot be expressed as a run of the holder machine", sc)
 	}
 	if sc.Death && firstRemoval == int64(1<<62) && atomic.LoadInt32(&disturbed) == 0 {
 		// nobody released it during the run: an independent observer now sees it stale and recovers it
@@ -1707,7 +1872,7 @@ func holds() {
 	type job struct{ sc scenario }
 	var jobs []job
 	maxP := r.N(40, 400)
-	n := r.N(12, 60)
+	n := r.N(20, 60)
 	for i := 0; i < n; i++ {
 		var p int
 		switch {
@@ -1788,6 +1953,8 @@ func runScenario(sc scenario) {
 		runD30(true)
 	case "cadence":
 		cadenceCheck(sc)
+	case "fault":
+		runFault(sc.Op, sc.Mem)
 	case "planted":
 		for try := 0; try < 25; try++ {
 			if runPlanted(sc, true) {
@@ -1834,7 +2001,7 @@ func main() {
 	var wg sync.WaitGroup
 	sem := make(chan struct{}, 4)
 	ks := []int{1, 2, 3, 4, 5, 6, 7, 8}
-	for i := 0; i < r.N(4, 24); i++ {
+	for i := 0; i < r.N(8, 24); i++ {
 		ks = append(ks, 9+r.Rng.Intn(r.N(40, 600)))
 	}
 	for _, k := range ks {
